@@ -14,13 +14,13 @@ from ..models import clusterref as cr
 ID = 'C02'
 RULE = ('data sets as C01 (Q: 1-D {0,1,2,4,7} n<=4, 2-D 3x2 n<=3, sampled 5-point 1-D; T: 1-D {0..6} n<=5, 2-D 3x3 n<=4) x '
         'metrics {euclidean, manhattan, callable chebyshev} x dtypes {f8,i4,f4} x n_clusters {None,1..n,n+1} x '
-        'dist_cutoff {None,0} u {r-eps,r,r+eps : r greedy radius} x init_centers {none, every <=3-subset of frames (Q: increasing order + reversed pairs; T: every order) - this includes every greedy prefix} '
+        'dist_cutoff {None,0} u {r-eps,r,r+eps : r greedy radius} x init_centers {none, every <=3-subset of frames (Q: increasing order + reversed pairs; T: every order) - this includes every greedy prefix; and initial centers that are NOT frames: 1-2 coordinates from a 5-point menu, each owning >=1 frame, on every 12th data set (T: every 3rd, all orders)} '
         'x use_triangle_inequality {F,T}; state=(data,metric,dtype,stop rule,init,shortcut); '
         'non-trivial = run that added >=1 greedy center and stopped before exhausting the data')
 ASSUMPTIONS = ['ties for the farthest frame may be broken arbitrarily: the oracle accepts any maximiser',
                '2-approximation is asserted for cold starts only, against the brute-force optimum over frame subsets',
                'eps = 1e-6 separates > from >= (distances are sqrt of small integers, gaps >> eps)']
-GUARDS = {'stop_by_count': 500, 'stop_by_radius': 500, 'zero_iterations': 500, 'ties': 500, 'shortcut_on': 500,
+GUARDS = {'off_frame_init': 200, 'stop_by_count': 500, 'stop_by_radius': 500, 'zero_iterations': 500, 'ties': 500, 'shortcut_on': 500,
           'both_criteria': 500}
 EPS = 1e-6
 METRICS = ('euclidean', 'manhattan', 'chebyshev')
@@ -185,6 +185,93 @@ def check_case(case, ctx, cache=None):
     ctx.state(key, nontrivial=(k > start and k < n))
 
 
+def check_offframe(case, ctx):
+    """initial centers that are NOT frames of the data (legal; the library's own hot-start test uses them): distances are
+    measured to the supplied coordinates, every further center is the farthest frame at that moment, the stop rule is exact"""
+    from enspara.cluster import kcenters as kc
+    pts, metric, coords, ncl, cut, tri = case['pts'], case['metric'], case['coords'], case['ncl'], case['cut'], case['tri']
+    X = cr.as_array([tuple(q) if isinstance(q, (list, tuple)) else q for q in pts], 'float64')
+    C0 = cr.as_array([tuple(q) if isinstance(q, (list, tuple)) else q for q in coords], 'float64')
+    n, k0 = len(X), len(C0)
+    m = cr.np_metric(metric)
+    ctx.ev()
+    ctx.guard('off_frame_init')
+    key = ('off', tuple(map(tuple, X.tolist())), metric, tuple(map(tuple, C0.tolist())), repr(ncl), repr(cut), tri)
+    kw = {}
+    if ncl is not None:
+        kw['n_clusters'] = ncl
+    if cut is not None:
+        kw['dist_cutoff'] = cut
+    nmax = np.inf if ncl is None else ncl
+    cmin = 0 if cut is None else cut
+    keep = C0.copy()
+    try:
+        res = kc.kcenters(X, cr.impl_metric(metric), init_centers=C0, use_triangle_inequality=tri, **kw)
+    except Exception as e:
+        ctx.state(key)
+        ctx.violation('kcenters_offframe:raises:%s' % type(e).__name__, case, 'kcenters raised %r on %r' % (e, case))
+        return
+    if not np.array_equal(C0, keep):
+        ctx.violation('kcenters_offframe:mutates_init', case, 'init_centers modified')
+    cents = [np.atleast_1d(np.asarray(c, float)) for c in res.centers]
+    k = len(cents)
+    ctx.state(key, nontrivial=k > k0)
+    if k < k0 or any(not np.array_equal(cents[i], C0[i]) for i in range(k0)):
+        ctx.violation('kcenters_offframe:init_prefix', case, 'returned centers %r do not start with the supplied ones %r' % (
+            [c.tolist() for c in cents], C0.tolist()))
+        return
+    Dc = np.array([m(X, c) for c in cents])          # (k, n) distances to the ACTUAL centers
+    cur = Dc[:k0].min(axis=0)
+    radii = [cur.max()]
+    for j in range(k0, k):
+        # every added center must be a frame of the data, and a farthest one
+        hit = [f for f in range(n) if np.array_equal(X[f], cents[j])]
+        if not hit:
+            ctx.violation('kcenters_offframe:center_not_a_frame', case, 'added center %r is not a frame' % cents[j].tolist())
+            return
+        mx = cur.max()
+        if max(cur[f] for f in hit) < mx - cr.TOL:
+            ctx.violation('kcenters_offframe:not_farthest', case,
+                          'center #%d = frame %r at distance %.6g from the centers so far, but frame %d is at %.6g (%r)' % (
+                              j, hit, max(cur[f] for f in hit), int(cur.argmax()), mx, case))
+            return
+        cur = np.minimum(cur, Dc[j])
+        radii.append(cur.max())
+    lab, dist = np.asarray(res.assignments), np.asarray(res.distances, float)
+    if lab.shape != (n,) or lab.min() < 0 or lab.max() >= k:
+        ctx.violation('kcenters_offframe:labels', case, 'labels %r with %d centers' % (lab.tolist(), k))
+        return
+    if np.abs(dist - cur).max() > cr.TOL or np.abs(Dc[lab, np.arange(n)] - cur).max() > cr.TOL:
+        ctx.violation('kcenters_offframe:distances', case, 'distances %r labels %r; minimal distances to the centers %r (%r)' % (
+            dist.tolist(), lab.tolist(), cur.tolist(), case))
+        return
+    for i, r in enumerate(radii[:-1]):
+        if not (k0 + i < nmax and r > cmin):
+            ctx.violation('kcenters_offframe:stops_late', case, 'added a center although the stop rule held with %d centers, radius %.9g (%r)' % (k0 + i, r, case))
+            return
+    if k < nmax and radii[-1] > cmin and k - k0 < n:
+        ctx.violation('kcenters_offframe:stops_early', case, 'stopped with %d centers, true covering radius %.9g (n_clusters=%r cutoff=%r)' % (
+            k, radii[-1], ncl, cut))
+
+
+def offframe_cases(pts, tier):
+    one_d = not isinstance(pts[0], (tuple, list))
+    if one_d:
+        cands = [0.5, 2.5, -1, 9, 3.25]
+    else:
+        cands = [(0.5, 0.5), (1.5, 0), (-1, 0), (3, 2), (1, 0.25)]
+    n = len(pts)
+    out = []
+    subs = [(c,) for c in cands[:3]] + [(cands[0], cands[3]), (cands[3], cands[1]), (cands[2], cands[4]), (cands[1], cands[0])]
+    if tier == 'thorough':
+        subs = [s_ for mm in (1, 2) for s_ in itertools.permutations(cands, mm)]
+    for sub in subs:
+        mm = len(sub)
+        for ncl in (None, mm, mm + 1, n + mm):
+            out.append((list(sub), ncl))
+    return out
+
+
 def stop_rules(n, radii):
     cuts = ['default', None, 0]
     for r in sorted(set(round(float(r), 12) for r in radii)):
@@ -228,9 +315,30 @@ def run_shard(sh, ctx):
                             case = {'pts': pts, 'dtype': dtype, 'metric': metric, 'ncl': ncl, 'cut': cut,
                                     'init': init, 'tri': tri}
                             check_case(case, ctx)
+        if (j // NSH[tier]) % (12 if tier == 'quick' else 3) == 0:
+            for metric in ('euclidean', 'manhattan'):
+                X = cr.as_array(pts, 'float64')
+                for coords, ncl in offframe_cases(pts, tier):
+                    C0 = cr.as_array(coords, 'float64')
+                    mfun = cr.np_metric(metric)
+                    d0 = np.array([mfun(X, c) for c in C0]).min(axis=0)
+                    # the statement presupposes a sensible start: every supplied center is the nearest one for some frame
+                    lab0 = np.array([mfun(X, c) for c in C0]).argmin(axis=0)
+                    if len(set(lab0.tolist())) < len(C0):
+                        continue
+                    rs = [float(r) for r in sorted(set(np.round(d0, 9))) if r > 0]
+                    cuts = [None] + [r + e for r in (rs if tier == 'thorough' else rs[-2:]) for e in (-EPS, EPS)]
+                    for cut in cuts:
+                        if ncl is None and cut is None:
+                            continue
+                        for tri in (False, True):
+                            oc = {'kind': 'off', 'pts': pts, 'metric': metric, 'coords': coords, 'ncl': ncl, 'cut': cut, 'tri': tri}
+                            check_offframe(oc, ctx)
         if j % 101 == 0:
             ctx.sample(case)
 
 
 def replay(case, ctx):
+    if case.get('kind') == 'off':
+        return check_offframe(case, ctx)
     check_case(case, ctx)
